@@ -96,6 +96,9 @@
 (*                      /configuration loads the restored tree again - and with *)
 (*                      it whatever the operator had changed on disk without    *)
 (*                      loading it yet (the refused update is not a no-op).     *)
+(*  DoctorMidSwitch     S7: while an update is between the switch to the new    *)
+(*                      engine and its announcement to the hub the doctor lists *)
+(*                      the new flows but not yet the quota files.              *)
 (*  ErrorHandlerContinues    S1: /on_haproxy_error answers 405 to another verb  *)
 (*                      and then handles the body all the same.                 *)
 (* Infrastructure failures (the proxy's admin API refusing a call) are outside  *)
@@ -380,7 +383,7 @@ PApplyPolicies(p, e) ==
         ELSE IF o.disk = newdisk /\ o.served = PolServed(c) THEN Ok(new) ELSE Bad("LoadOutcome", p)
     ELSE IF IsOK(e.code) THEN Bad("Agree", p)
     ELSE IF o.served # PolServed(p.cur) \/ o.put # 0 THEN Bad("LoadOutcome", p)
-    ELSE IF cls = "conflict" THEN
+    ELSE IF cls = "conflict" /\ e.arg.body = "" THEN
         Reading(o.disk = p.disk /\ o.sha = p.sha, o.disk = recorded, "LoadedFileOfFailedLoad", "LoadOutcome", Sync(p, o))
     ELSE IF o.disk = p.disk /\ o.sha = p.sha THEN Ok(p) ELSE Bad("LoadOutcome", p)
 
@@ -413,6 +416,13 @@ PDuringFlight(p, e, known) ==
     ELSE IF e.ep = "validate_flows" THEN PValidateFlows(p, e, known)
     ELSE IF e.ep = "on_haproxy_error" THEN
         (IF e.arg.decodable = (e.code = 200) /\ (~e.arg.decodable) = ~IsOK(e.code) THEN Ok(p) ELSE Bad("ErrorReport", p))
+    ELSE IF e.ep = "doctor" /\ PGet(p, e, cands).v # "" THEN
+        \* between the switch to the new engine and its announcement to the hub the doctor lists the flows only
+        LET a == Fld(e, "ans", [parsed |-> FALSE])
+            flowsOf(c) == Restrict(c, {q \in DOMAIN c : q \in {FP[f] : f \in ProbeFlows}})
+        IN Reading(FALSE, e.code = 200 /\ a.parsed /\ a.streams /\ a.hasloaded /\ (\E c \in cands : Beh(c) = o.served /\
+                              flowsOf(a.files) = flowsOf(c) /\ (\A q \in DOMAIN a.files : q \in DOMAIN c /\ a.files[q] = c[q])),
+                   "DoctorMidSwitch", "Introspect", p)
     ELSE IF e.ep \in DOMAIN CommonRoutes THEN PGet(p, e, cands)
     ELSE Bad("Harness", p)        \* /load_flows next to a running update is outside the statement
 
